@@ -11,6 +11,7 @@
   and that nothing goes wrong under interleaving of child and parent.  A value model has no aliasing; only the
   correspondence sweep (harness/src/bin/c08.rs) exhibits those.
 -/
+import YashModel.Fork.RedirLemmas
 import YashModel.Fork.Fields
 import YashModel.Fork.Lemmas
 import YashModel.Fork.SharedLemmas
@@ -936,6 +937,164 @@ example :
       (startEnv { pro := [], kinds := [], child := [], during := [], internal := true })).stack.contains "Subshell")
       = true := by
   decide
+
+
+/-! ## Part 6 — the process-level mutators are system calls of the shell's own process; the redirection engine
+
+`umask`, `cd`, `ulimit -n` and the four `exec` redirections of the sweep are no longer typed into `applyOpCore` as
+direct writes of `Env.system`: they ARE the calls of `Call.runT` (the functions the `X:` cases drive on the real
+`SystemState`), composed as `yash-semantics/src/redir.rs` composes them (`performRedir`, `execRedir`).  This part
+says what the composition guarantees and ties the by-value `Env.system` of Parts 2/4 to the shared table of Part 3. -/
+
+/-- A call that answers an error has changed nothing (the doc comment of `Call.run`, now a theorem: `dup` onto a
+    full table, `dup2` above the limit, `chdir` to a missing directory, … leave the process as it was). -/
+theorem failing_call_changes_nothing (c : Call) (p : Proc) (h : (c.runT p).1.isErr = true) : (c.runT p).2 = p := by
+  cases c <;> simp only [Call.runT] at h ⊢ <;> (repeat' split) <;> simp_all [CallRes.isErr]
+
+/-- ★ What one redirection of `exec` does (`perform` → `open_and_overwrite` → `preserve_redirs`; Spec:
+    `specRedirEntry`).  Success: the target descriptor designates what the redirection names (the file / the source's
+    open file description without CLOEXEC / nothing) and EVERY other descriptor is as before — the saved copy at ≥ 10
+    and the temporary descriptor of `open` are gone again.  Failure: the whole table is as before.  Either way
+    nothing but the descriptor table is touched (cwd, umask, dispositions, mask, limit). -/
+theorem exec_redirection_table (p : Proc) (n : Nat) (b : RedirBody) :
+    ((execRedir p n b).1 = true →
+        ∀ m, fdGet (execRedir p n b).2.fds m = if m = n then specRedirEntry p b else fdGet p.fds m)
+    ∧ ((execRedir p n b).1 = false → ∀ m, fdGet (execRedir p n b).2.fds m = fdGet p.fds m)
+    ∧ p.SameButFds (execRedir p n b).2 := by
+  have h := execRedir_table_all p n b
+  have e : specRedirEntry p b = redirEntry p b := by cases b <;> rfl
+  rw [e]
+  exact ⟨h.1, h.2, execRedir_same p n b⟩
+
+/-- non-vacuity: fd 4 open, `exec 4>|f1` succeeds (saved copy at 10 and temporary fd 3 are gone), `exec 4>&5` fails
+    (5 is closed) and leaves the table alone -/
+example :
+    let p : Proc := { baseEnv.system with fds := fdPut baseEnv.system.fds 4 { label := "f2" } }
+    (execRedir p 4 (.file "f1")).1 = true
+    ∧ (execRedir p 4 (.file "f1")).2.fds = [(0, { label := "in" }), (1, { label := "out" }), (2, { label := "err" }),
+        (4, { label := "f1" })]
+    ∧ (execRedir p 4 (.copy 5)).1 = false ∧ (execRedir p 4 (.copy 5)).2.fds = p.fds := by
+  decide
+
+/-- ★ No redirection creates a descriptor at or above the soft RLIMIT_NOFILE (`Process::set_fd`'s guard reached
+    through `dup2`, or through `open` itself when the target is the lowest free descriptor): with the target not
+    allowed, `N>|file`, `N<file` and `N>&M` (M ≠ N) fail — whatever else is open, whatever the saved copy did. -/
+theorem redirection_respects_limit (p : Proc) (n : Nat) (b : RedirBody) (hb : b ≠ .close) (hself : b ≠ .copy n)
+    (h : (execRedir p n b).1 = true) : fdAllowed p n = true := by
+  by_cases hl : fdAllowed p n = true
+  · exact hl
+  · rw [execRedir_limit p n b hb hself hl] at h; cases h
+
+/-- non-vacuity: a process whose soft limit is 16 (`String.toNat?` of the limit's text does not reduce in the kernel,
+    hence the hypothesis; the driver evaluates it for the `nofile 16` cases of the sweep): `exec 20>|f1` and
+    `exec 20>&1` fail, and descriptor 5 is allowed -/
+example (p : Proc) (h : nofileLimit p = some 16) :
+    (execRedir p 20 (.file "f1")).1 = false ∧ (execRedir p 20 (.copy 1)).1 = false ∧ fdAllowed p 5 = true := by
+  have hl : ¬ fdAllowed p 20 = true := by simp [fdAllowed, h]
+  exact ⟨execRedir_limit p 20 _ (by simp) (by simp) hl, execRedir_limit p 20 _ (by simp) (by simp) hl,
+    by simp [fdAllowed, h]⟩
+
+/-- ★ The by-value `Env.system` and the shared table agree on the mutators: for `umask`, `cd`, `ulimit -n` and the
+    `exec` redirections the process state after the mutator is the state before with a list of the process's OWN
+    system calls applied (`runCalls`, the function `interleaving_isolated` / `shared_table_is_spec` speak about) —
+    successful or not. -/
+theorem process_mutators_are_own_calls (sh : Shell) (op : Op) (hop : op.processLevel = true) :
+    ∃ cs, (applyOpCore sh op).env.system = runCalls sh.env.system cs := by
+  cases op with
+  | umask m => exact ⟨[.umask m], by simp only [applyOpCore]; rfl⟩
+  | nofile v => exact ⟨[.setrlimit v], by simp only [applyOpCore]; rfl⟩
+  | cd d =>
+    refine ⟨[.chdir (shorten d (((sh.env.variables.vars.find "PWD").map (·.value)).getD ""))], ?_⟩
+    simp only [applyOpCore, runCalls, List.foldl, Call.run]
+    split
+    · simp only []
+    · rename_i h
+      exact (failing_call_changes_nothing _ _ (by simpa using h)).symm
+  | fdw n f =>
+    obtain ⟨cs, h⟩ := execRedir_calls sh.env.system n (.file f)
+    exact ⟨cs, by simp only [applyOpCore]; rw [redirOp_env]; exact h⟩
+  | fdr n =>
+    obtain ⟨cs, h⟩ := execRedir_calls sh.env.system n (.file "oin")
+    exact ⟨cs, by simp only [applyOpCore]; rw [redirOp_env]; exact h⟩
+  | fdd n m =>
+    obtain ⟨cs, h⟩ := execRedir_calls sh.env.system n (.copy m)
+    exact ⟨cs, by simp only [applyOpCore]; rw [redirOp_env]; exact h⟩
+  | fdc n =>
+    obtain ⟨cs, h⟩ := execRedir_calls sh.env.system n .close
+    exact ⟨cs, by simp only [applyOpCore]; rw [redirOp_env]; exact h⟩
+  | _ => simp [Op.processLevel] at hop
+
+/-- the calls of ONE process, run through its handle on the shared table: its entry gets `runCalls`, no other entry
+    is touched -/
+theorem own_calls_on_table (copied : List (String × String)) (pid : Nat) (cs : List Call) :
+    ∀ (s : SysState) (p : Proc), s.processes.get pid = some p →
+      (s.run copied (cs.map fun c => (pid, .call c))).processes.get pid = some (runCalls p cs)
+      ∧ ∀ q, q ≠ pid → (s.run copied (cs.map fun c => (pid, .call c))).processes.get q = s.processes.get q := by
+  induction cs with
+  | nil => intro s p h; exact ⟨h, fun _ _ => rfl⟩
+  | cons c rest ih =>
+    intro s p h
+    have h1 : (s.exec pid c).2.processes.get pid = some (c.run p).2 := by rw [exec_get]; simp [h]
+    obtain ⟨r1, r2⟩ := ih (s.exec pid c).2 (c.run p).2 h1
+    refine ⟨?_, ?_⟩
+    · simpa [SysState.run, SysState.step, runCalls] using r1
+    · intro q hq
+      have := r2 q hq
+      rw [exec_get] at this
+      simpa [SysState.run, SysState.step, hq] using this
+
+/-- ★★ A process-level mutator of the shell with process id `pid`, performed on the SHARED table (the shell's
+    `Env.system` being the entry of `pid`): afterwards the entry of `pid` is exactly the `Env.system` the shell-level
+    model computes, and the entry of every other process — the parent's, a sibling's — is untouched.  So what a
+    subshell does with `umask`, `cd`, `ulimit -n`, `exec N>…` cannot reach its starter through the shared
+    `SystemState`; with `interleaving_isolated` this holds for every interleaving with the starter's own mutators. -/
+theorem mutator_on_shared_table (copied : List (String × String)) (s : SysState) (pid : Nat) (sh : Shell) (op : Op)
+    (hop : op.processLevel = true) (hs : s.processes.get pid = some sh.env.system) :
+    ∃ cs : List Call,
+      (s.run copied (cs.map fun c => (pid, .call c))).processes.get pid = some (applyOpCore sh op).env.system
+      ∧ ∀ q, q ≠ pid → (s.run copied (cs.map fun c => (pid, .call c))).processes.get q = s.processes.get q := by
+  obtain ⟨cs, h⟩ := process_mutators_are_own_calls sh op hop
+  obtain ⟨r1, r2⟩ := own_calls_on_table copied pid cs s sh.env.system hs
+  exact ⟨cs, by rw [r1, h], r2⟩
+
+/-- non-vacuity: a child (pid 3) forked from the initial process runs `exec 4>|f1` as calls on the table -/
+example :
+    let s := (initialSys.fork implCopied 2).2
+    let sh : Shell := { env := { baseEnv with system := Proc.forkFrom implCopied 2 baseEnv.system } }
+    (s.processes.get 3).isSome = true ∧ (Op.fdw 4 "f1").processLevel = true
+    ∧ fdGet (applyOpCore sh (.fdw 4 "f1")).env.system.fds 4 = some { label := "f1" } := by
+  decide
+
+/-- ★ A failing special built-in inside a subshell shows in the starter as the exit status only: when the child's
+    body ends in an `exec` redirection that cannot be performed (or any other `builtinError`), the child runs ITS OWN
+    exit trap and exits with status 2; the starter's state is what `subshell_isolated` says, its `$?` is the kind's
+    status of 2.  Stated for the shell that fails: it halts with 2, its environment is untouched by the failing
+    redirection except (extensionally) nothing, and the only event is its own EXIT trap. -/
+theorem failing_redirection_halts (sh : Shell) (n : Nat) (b : RedirBody) (h : (execRedir sh.env.system n b).1 = false) :
+    (redirOp sh n b).halted = some 2
+    ∧ (∀ m, fdGet (redirOp sh n b).env.system.fds m = fdGet sh.env.system.fds m)
+    ∧ (redirOp sh n b).events = sh.events ++ (match trapCommandOf sh.env 0 with
+        | some k => [s!"T{k}"]
+        | none => []) := by
+  have hf := (exec_redirection_table sh.env.system n b).2.1 h
+  refine ⟨?_, ?_, ?_⟩
+  · unfold redirOp builtinError exitShell; simp only [h]; rfl
+  · intro m; rw [redirOp_env]; exact hf m
+  · unfold redirOp builtinError exitShell trapCommandOf; simp only [h]; rfl
+
+/-- The constants and the call order of the redirection engine are what the model assumes — re-extracted from /repo
+    on every run (`tools/tables/forksys.py`): `MIN_INTERNAL_FD` (yash-env/src/io.rs) is the model's `minInternalFd`;
+    a process created from nothing has the model's `defaultUmask` (`with_parent_and_group` → `Mode::default()`);
+    `perform` checks the target's CLOEXEC flag, THEN saves it with `dup(target, MIN_INTERNAL_FD, CloseOnExec)` (EBADF =
+    nothing to save), THEN runs `open_and_overwrite`, and closes the saved copy on error; `open_and_overwrite`
+    closes the opened descriptor AFTER `dup2`; `preserve_redirs` only closes saved copies. -/
+theorem redirection_engine_as_modelled :
+    Generated.ForkSystem.minInternalFd = minInternalFd
+    ∧ Generated.ForkSystem.freshUmask = defaultUmask
+    ∧ Generated.ForkSystem.performOrder = ["is_cloexec_target", "dup_save", "open_and_overwrite", "close_save_on_error"]
+    ∧ Generated.ForkSystem.saveEbadfIsNone = true
+    ∧ Generated.ForkSystem.overwriteOrder = ["dup2", "close_spec", "close_target"]
+    ∧ Generated.ForkSystem.preserveClosesSave = true := by decide
 
 
 end YashModel.Fork
